@@ -117,8 +117,27 @@ func Time(t time.Time) *time.Time {
 	return &t
 }
 
+// Params joins the parameters of a run into the string that is recorded with
+// its status. Retry and restart parse that string again, so a value that
+// contains white space or quotes (or is empty) is written in the quoted form
+// of the parameter syntax.
 func Params(params []string) string {
-	return strings.Join(params, " ")
+	quoted := make([]string, len(params))
+	for i, p := range params {
+		quoted[i] = quoteParam(p)
+	}
+	return strings.Join(quoted, " ")
+}
+
+func quoteParam(p string) string {
+	name, value := "", p
+	if k := strings.Index(p, "="); k > 0 && !strings.ContainsAny(p[:k], " \t\"") {
+		name, value = p[:k+1], p[k+1:]
+	}
+	if value == "" || strings.ContainsAny(value, " \t\"") {
+		value = `"` + strings.ReplaceAll(value, `"`, `\"`) + `"`
+	}
+	return name + value
 }
 
 type PID int
